@@ -9,6 +9,7 @@ mod fixtures;
 mod par;
 mod replica;
 mod session;
+mod sqlconf;
 
 unsafe extern "C" {
     fn mallopt(param: i32, value: i32) -> i32;
